@@ -4,7 +4,8 @@
    A shape is a sequence of fields [vis, opt]: visibility "private" | "public" | "underscore" | "embedded" (an embedded struct
    without fields does not count), opt = the field type is fp.Option.  The ACTIVE fields are all but the underscore ones and
    empty embedded structs; they form the tuple / labelled / map / mutable representations, in declaration order.
-   Required API:  a getter and a WithF per private field; a Builder with a setter per private field; WithSomeF / WithNoneF and
+   Required API (for @fp.Value; @fp.Getter / @fp.With / @fp.Builder / @fp.String alone give the corresponding part):
+   a getter and a WithF per private field; a Builder with a setter per private field; WithSomeF / WithNoneF and
    builder SomeF / NoneF per private Option field; AsMap/FromMap, AsMutable/AsImmutable, String always; AsTuple/FromTuple and
    Unapply/Apply while there are fewer active fields than internal/max.Product (22); AsLabelled/FromLabelled additionally need
    @fp.GenLabelled; MarshalJSON/UnmarshalJSON need @fp.Json.
@@ -17,12 +18,21 @@ MaxProduct == 22
 Active(shape) == {i \in DOMAIN shape : shape[i].vis # "underscore" /\ ~shape[i].emptyembedded}
 Private(shape) == {i \in DOMAIN shape : shape[i].vis = "private"}
 HasTuple(shape) == Cardinality(Active(shape)) < MaxProduct /\ Cardinality(Active(shape)) >= 1
-Required(shape, labelled, json) ==
-  IF Active(shape) = {} THEN {} ELSE    \* nothing to represent: gombok emits nothing and no law has an instance
+RequiredValue(shape, labelled, json) ==
   {"Builder", "AsMap", "FromMap", "AsMutable", "AsImmutable", "String"}
   \cup (IF HasTuple(shape) THEN {"AsTuple", "FromTuple", "Unapply", "Apply"} ELSE {})
   \cup (IF HasTuple(shape) /\ labelled THEN {"AsLabelled", "FromLabelled"} ELSE {})
   \cup (IF json THEN {"MarshalJSON", "UnmarshalJSON"} ELSE {})
+\* anns: the annotations of the declaration ("Value", "Getter", "With", "Builder", "String", ...); the partial annotations give
+\* the corresponding part of the API only, and any combination must still compile (checked by the Generate event)
+Required(shape, anns, labelled, json) ==
+  IF Active(shape) = {} THEN {} ELSE    \* nothing to represent: gombok emits nothing and no law has an instance
+  (IF "Value" \in anns THEN RequiredValue(shape, labelled, json) ELSE {})
+  \cup (IF "Builder" \in anns THEN {"Builder"} ELSE {})
+  \cup (IF "String" \in anns THEN {"String"} ELSE {})
+NeedGetter(anns) == "Value" \in anns \/ "Getter" \in anns
+NeedWith(anns) == "Value" \in anns \/ "With" \in anns
+NeedBuilder(anns) == "Value" \in anns \/ "Builder" \in anns
 
 \* ---------------- the abstract machine ----------------
 FieldSpace == [vis : {"private", "public", "underscore"}, opt : BOOLEAN, emptyembedded : {FALSE}]
